@@ -97,6 +97,35 @@ def handle (j : Json) : Except String Json := do
         ("bonding", Json.arr (o.bonding.map fun (k, ds) => Json.arr #[nat k, Json.arr (ds.map str).toArray]).toArray),
         ("attrs", Json.arr (o.attrs.map fun (k, a) => Json.arr #[nat k, attrsTo a]).toArray)])])
     | .error e => pure (errTo e)
+  | "genfn" =>
+    -- the leaf functions translated from the source (or their reference model when the translator fell back)
+    let fn ← (← j.getObjVal? "fn").getStr?
+    match fn with
+    | "compatible" =>
+      match Gen.compatible (← ofStr (← j.getObjVal? "left")) (← ofStr (← j.getObjVal? "right")) (← boolOf (← j.getObjVal? "legacy")) with
+      | .ok b => pure (Json.mkObj [("ok", Json.bool b)])
+      | .error e => pure (errTo e)
+    | "format_bonding" =>
+      match Gen.formatBonding (← listOf ofStr (← j.getObjVal? "bonding")) with
+      | .ok t => pure (Json.mkObj [("ok", str t)])
+      | .error e => pure (errTo e)
+    | "find_complementary" =>
+      match Gen.findComplementary (← ofStr (← j.getObjVal? "desc")) (← listOf ofStr (← j.getObjVal? "eligible")) with
+      | .ok l => pure (Json.mkObj [("ok", Json.arr (l.map str).toArray)])
+      | .error e => pure (errTo e)
+    | "set_bond_order_defaults_dict" =>
+      match Gen.setBondOrderDefaultsDict (Prob := Nat) (← listOf (pairOf ofStr natOf) (← j.getObjVal? "bonding")) with
+      | .ok l => pure (Json.mkObj [("ok", Json.arr (l.map fun (k, v) => Json.arr #[str k, nat v]).toArray)])
+      | .error e => pure (errTo e)
+    | "set_bond_order_defaults_list" =>
+      match Gen.setBondOrderDefaultsList (← listOf ofStr (← j.getObjVal? "bonding")) with
+      | .ok l => pure (Json.mkObj [("ok", Json.arr (l.map str).toArray)])
+      | .error e => pure (errTo e)
+    | "find_next_character" =>
+      match Gen.findNextCharacter (← ofStr (← j.getObjVal? "string")) (← listOf ofStr (← j.getObjVal? "chars")) (← natOf (← j.getObjVal? "start")) with
+      | .ok n => pure (Json.mkObj [("ok", nat n)])
+      | .error e => pure (errTo e)
+    | _ => throw s!"unknown generated function {fn}"
   | "splitfrags" =>
     let t ← ofStr (← j.getObjVal? "s")
     pure (Json.mkObj [("ok", Json.arr ((splitFragments t).map fun (n, x) => Json.arr #[str n, str x]).toArray)])
